@@ -84,6 +84,8 @@ type LimbDom struct {
 	Prims map[string]func(in *Interp, site ssa.Instruction, args []Val) []Val
 	// SubLog: every bits.Sub64 whose borrow is symbolic (Flat mode): operands, incoming and outgoing borrow
 	SubLog []SubRec
+	// NoCmovPrim: interpret the body of fiatScalarCmovznzU64 instead of applying its contract (FIAT-CMOV checks it)
+	NoCmovPrim bool
 }
 
 // SubRec is one word of a multi-word subtraction: Out = [X − Y − In < 0].
@@ -98,32 +100,44 @@ type LBool struct{ P *poly.Poly }
 // word's outgoing one), it returns X = Σ x_i·2^(64i) and Y likewise; then
 // out = [X < Y] (schoolbook subtraction).
 func (d *LimbDom) BorrowChain(out *poly.Poly) (X, Y *poly.Poly, words int, ok bool) {
+	chain, ok := d.BorrowChainRecs(out)
+	if !ok {
+		return nil, nil, 0, false
+	}
+	X, Y = d.R.Int(0), d.R.Int(0)
+	for i, r := range chain {
+		w := new(big.Int).Lsh(big.NewInt(1), uint(64*i))
+		X = X.Add(r.X.Scale(w))
+		Y = Y.Add(r.Y.Scale(w))
+	}
+	return X, Y, len(chain), true
+}
+
+// BorrowChainRecs returns the words of the chain (least significant first). Each word is looked for strictly
+// before the one it feeds (a top word 0 − 0 − b has the same outgoing borrow b as the word below it).
+func (d *LimbDom) BorrowChainRecs(out *poly.Poly) ([]SubRec, bool) {
 	var chain []SubRec
 	cur := out
+	from := len(d.SubLog) - 1
 	for steps := 0; steps < 64; steps++ {
 		var rec *SubRec
-		for i := len(d.SubLog) - 1; i >= 0; i-- {
+		for i := from; i >= 0; i-- {
 			if d.SubLog[i].Out.Equal(cur) {
 				rec = &d.SubLog[i]
+				from = i - 1
 				break
 			}
 		}
 		if rec == nil {
-			return nil, nil, 0, false
+			return nil, false
 		}
 		chain = append([]SubRec{*rec}, chain...)
 		if rec.In.IsZero() {
-			X, Y = d.R.Int(0), d.R.Int(0)
-			for i, r := range chain {
-				w := new(big.Int).Lsh(big.NewInt(1), uint(64*i))
-				X = X.Add(r.X.Scale(w))
-				Y = Y.Add(r.Y.Scale(w))
-			}
-			return X, Y, len(chain), true
+			return chain, true
 		}
 		cur = rec.In
 	}
-	return nil, nil, 0, false
+	return nil, false
 }
 
 func NewLimbDom(p *load.Program, trackPoly bool) *LimbDom {
@@ -807,6 +821,29 @@ func (d *LimbDom) Call(in *Interp, site ssa.Instruction, fn *ssa.Function, args 
 	case "math/bits.Add64":
 		s, c := d.Add64(in, args[0], args[1], args[2], site)
 		return []Val{s, c}, true
+	case "crypto/subtle.ConstantTimeSelect":
+		// v ∈ {0,1}: x if v = 1, y if v = 0 (on ints: the operands have already gone through the conversion to int,
+		// which loses their polynomial where int is too narrow for them)
+		v, x, y := d.lift(args[0]), d.lift(args[1]), d.lift(args[2])
+		if v == nil || x == nil || y == nil {
+			return nil, false
+		}
+		if ci, ok := args[0].(Int); ok {
+			if ci.V.Sign() == 0 {
+				return []Val{args[2]}, true
+			} else if ci.V.Cmp(big.NewInt(1)) == 0 {
+				return []Val{args[1]}, true
+			}
+		}
+		if v.Lo.Sign() < 0 || v.Hi.Cmp(big.NewInt(1)) > 0 {
+			in.Oblige("cond∈{0,1}", site, false, "ConstantTimeSelect selects only for v ∈ {0,1}")
+			return []Val{d.mk(minBig(x.Lo, y.Lo), maxBig(x.Hi, y.Hi), nil)}, true
+		}
+		var p *poly.Poly
+		if v.P != nil && x.P != nil && y.P != nil {
+			p = y.P.Add(v.P.Mul(x.P.Sub(y.P)))
+		}
+		return []Val{d.mk(minBig(x.Lo, y.Lo), maxBig(x.Hi, y.Hi), p)}, true
 	case "crypto/subtle.ConstantTimeEq", "crypto/subtle.ConstantTimeByteEq", "crypto/subtle.ConstantTimeLessOrEq":
 		if _, ok := args[0].(Int); ok {
 			if _, ok := args[1].(Int); ok {
@@ -1018,7 +1055,7 @@ func (d *LimbDom) flatCall(in *Interp, site ssa.Instruction, fn *ssa.Function, n
 		}
 		return []Val{d.mk(big.NewInt(0), max64, diffP), d.mk(blo, bhi, borP)}, true
 	}
-	if in.P.InRepo(fn) && load.ShortName(fn) == "fiatScalarCmovznzU64" {
+	if in.P.InRepo(fn) && load.ShortName(fn) == "fiatScalarCmovznzU64" && !d.NoCmovPrim {
 		c, x, y := d.lift(args[1]), d.lift(args[2]), d.lift(args[3])
 		if c == nil || x == nil || y == nil {
 			return nil, false
@@ -1066,4 +1103,18 @@ func withLowZero(v Val, k uint) Val {
 		return &c
 	}
 	return v
+}
+
+func minBig(a, b *big.Int) *big.Int {
+	if a.Cmp(b) < 0 {
+		return a
+	}
+	return b
+}
+
+func maxBig(a, b *big.Int) *big.Int {
+	if a.Cmp(b) > 0 {
+		return a
+	}
+	return b
 }
